@@ -75,7 +75,10 @@ Definition model (r : lrow) : option (float * list (nat * float)) :=
     let px := k * dz * dx in let py := k * dz * dy in let pz := - k * d * d in
     (* acos (dz/sd) = atan2 (d, dz) for d > 0 *)
     let za0 := fl_atan2 d dz in
-    let za := if PrimFloat.ltb fpi (val r) then f2pi - za0 else za0 in
+    (* a reading above 200 gon is a second-face reading 2 pi - z: the computed value is mirrored AND the partials change sign *)
+    let face2 := PrimFloat.ltb fpi (val r) in
+    let za := if face2 then f2pi - za0 else za0 in
+    let px := if face2 then - px else px in let py := if face2 then - py else py in let pz := if face2 then - pz else pz in
     Some ((val r - za) * R2CC,
           opt (fa_xy r) [(2%nat, - py); (1%nat, - px)] ++ opt (fa_z r) [(3%nat, - pz)] ++
           opt (fb_xy r) [(5%nat, py); (4%nat, px)] ++ opt (fb_z r) [(6%nat, pz)])
